@@ -1,4 +1,6 @@
 """C05 — defs write at the call site; buffering, capture, calls with content."""
+import time
+from vrf.core import Result, VIOLATED, BOUNDED_OK
 from vrf.propkit import run_pyvc, run_schema, contracts_for, BASE_TRUST, BASE_ASSUME
 from vrf.schema.programs import family
 
@@ -30,11 +32,30 @@ def attr_mixtures(rep, tier):
                        time_s=time.time() - t0, detail="literal text as strings, ${} as values, mixtures concatenated in order"))
 
 
+def filter_once(rep, tier):
+    """bounded stand-in for 'a def or block with filter= passes its whole content once through those filters': non-commuting
+    filter callables on defs and blocks, also with default_filters and <%page expression_filter> configured"""
+    from vrf.bounded import filter_grid as G
+    from vrf.propkit import pool_map
+    t0 = time.time()
+    cases = [c for c in G.site_cases() if c[0] != "text"]
+    outs = [o for o in pool_map(G.run_site, cases) if o]
+    bound = "filter= on def / anonymous block / named block, with default_filters and expression_filter configured, buffer_filters on buffered defs; 8 filter lists"
+    if outs:
+        rep.add(Result("C05.filter-once-grid", VIOLATED, klass="B", backend="native-oracle", function="mako.codegen:_GenerateRenderMethod.write_def_finish", bound=bound,
+                       evaluations=len(cases), detail=str({k: outs[0][k] for k in ("template", "expected", "got")})[:300], witness=outs[0], replayed=True,
+                       replay={"failures": outs[:3]}, time_s=time.time() - t0))
+    else:
+        rep.add(Result("C05.filter-once-grid", BOUNDED_OK, klass="B", backend="native-oracle", function="mako.codegen:_GenerateRenderMethod.write_def_finish", bound=bound,
+                       evaluations=len(cases), time_s=time.time() - t0, detail="the content goes once through the listed filters, in order, and through nothing else"))
+
+
 def run(rep, tier):
     rep.trust(*BASE_TRUST)
     rep.assume(*BASE_ASSUME)
     run_pyvc(rep, contracts_for("C05"), native_limit=150 if tier == "quick" else 600)
     run_schema(rep, family(tier), labels="normal")
     attr_mixtures(rep, tier)
+    filter_once(rep, tier)
     from vrf.propkit import link_bounded_witness
-    link_bounded_witness(rep, only=lambda r: "_parse_attributes" in r.oid)
+    link_bounded_witness(rep, only=lambda r: "_parse_attributes" in r.oid or "write_def_finish" in r.oid)
